@@ -92,6 +92,8 @@ CLASSES = {
     # label / key / file-name like: printable, no grouping, escape, comment, parameter, brackets
     'HIDDEN': minus(R('!..~', 'À..ſ', ' '), '{}\\%#[]'),
     'COMMENT': R(' ..~', 'À..ſ', '\t'),
+    # the characters LaTeX / YaLafi treat specially + a letter, a digit, blank, line break
+    'SYNTAX': R('{', '}', '[', ']', '\\', '%', '#', '$', '&', '~', '^', '_', '=', ',', '-', '"', "'", '`', ' ', '\n', 'a', '1', '*', '|'),
     # every code point except the active characters that are not in the documented table
     'PROSE': minus([(1, 0xD7FF), (0xE000, 0x2FFFF)], '\\%#${}'),
     'ALPHA': R('a..z', 'A..Z'),
@@ -128,7 +130,7 @@ def split(spec):
 
 
 def make(pre, post, cls, L, optsd, oracle, ml=False, lmin=0, twin=False, node_of=None,
-         accept_exit=False, splice=True, win=None, first_ranges=None):
+         accept_exit=False, splice=True, win=None, first_ranges=None, exc_tag=None):
     """oracle(h0, doc, result_flat, diags) -> None / failure message.
     returns (prop, concrete)"""
     from vf.offrun import flatten
@@ -151,6 +153,11 @@ def make(pre, post, cls, L, optsd, oracle, ml=False, lmin=0, twin=False, node_of
         except SystemExit as ex:
             return None if accept_exit else 'filter stopped with SystemExit(%r) on %r' % (
                 ex.code, doc)
+        except Exception as ex:      # noqa: a crash of the filter
+            if exc_tag:
+                return '%s unhandled %s: %s on input %r' % (exc_tag, type(ex).__name__,
+                                                            str(ex)[:100], doc)
+            return None
         flat = flatten(res)
         for lab, plain, cm in flat:
             if len(plain) != len(cm):
@@ -202,6 +209,10 @@ def make(pre, post, cls, L, optsd, oracle, ml=False, lmin=0, twin=False, node_of
                 nex = None
             except SystemExit as ex:
                 nres, ndiags, nex = None, [], ex
+            except Exception as ex:      # noqa: crash of the filter on the witness
+                if exc_tag:
+                    return D.Fail(concrete_check(h0), {'h': h0})
+                raise D.UnexploredPath('native run crashed: ' + repr(ex)[:100])
             if exited is not None or nex is not None:
                 if (exited is None) != (nex is None):
                     raise D.UnexploredPath('LINK exit mismatch')
@@ -227,8 +238,12 @@ def make(pre, post, cls, L, optsd, oracle, ml=False, lmin=0, twin=False, node_of
                 for (sl, sc, _t), (nl, nc, _nt) in zip(rec.events, ndiags):
                     conj.append(D.z3var(sl) == nl)
                     conj.append(D.z3var(sc) == nc)
-            if ok and conj:
+            if ok and conj and not exc_tag:
                 ok = D.must_hold(z3.And(*conj))
+            if exc_tag:
+                # totality only: the symbolic run itself covered every member of the path
+                # class without raising; the native run on the witness is a validation
+                ok = True
             verdict = concrete_check(h0)
             if not ok:
                 if verdict is None:
